@@ -163,6 +163,14 @@ def rule_batch(ctx) -> None:
         ctx.check(dom, "C04.BATCH", key, fn.loc(c),
                   "per-delta call is dominated by the handler of the try that contains the batch call (runs only if the batch call failed)",
                   "per-delta apply is reachable without the batch call having raised: deltas can be applied twice")
+        # isolation: a failing delta must not stop the remaining ones - the catch-all try sits *inside* the loop
+        chain = enclosing(ctx.prog, fn, c)
+        i_try = next((i for i, (st, part) in enumerate(chain) if isinstance(st, ast.Try) and part == "body" and any(handler_catches_all(h) for h in st.handlers)), None)
+        i_for = next((i for i, (st, part) in enumerate(chain) if isinstance(st, (ast.For, ast.While)) and part == "body"), None)
+        ctx.check(i_try is not None and i_for is not None and i_try < i_for, "C04.BATCH", f"{APPLY}/fallback-per-delta-isolated", fn.loc(c),
+                  "each per-delta call has its own catch-all handler inside the loop: one failing delta does not stop the others",
+                  "the per-delta fallback loop is guarded as a whole (or not at all): the first delta that raises ends the loop and every "
+                  "approved delta after it is never handed to the store")
         # element provenance: [d] with d iterating the same list as the batch
         el = c.args[1].elts[0]
         okp = False
